@@ -59,7 +59,7 @@ def all_tokens(ctx):
 def gencfg(ctx, name, **kw):
     consts = dict(MC_DUMMY)
     consts.update(dict(Cycles=3, MinF=0, MaxF=2, SingleCtors=set(), PairCtors=set(), PairFeats=set(),
-                       FocusKinds={"ctor", "sect"}, CtxMode="one"))
+                       FocusKinds={"ctor", "sect"}, CtxMode="one", PreSaves={False, True}))
     consts.update(kw)
     return ctx.cfg(name, "SpecGen", consts, invariants=["Emit"])
 
